@@ -570,9 +570,16 @@ impl CommandBuilder<'_> {
                 Err(e) => Err(CommandExecutionError::CannotRun(e)),
             },
             ExecAction::Echo => {
+                // With -I the line is substituted into the command's (here: no)
+                // arguments and nothing is appended.
+                let appended: &[OsString] = if self.options.replace.is_some() {
+                    &[]
+                } else {
+                    &self.extra_args
+                };
                 println!(
                     "{}",
-                    self.extra_args
+                    appended
                         .iter()
                         .map(|arg| arg.to_string_lossy())
                         .collect::<Vec<_>>()
